@@ -130,6 +130,11 @@ def run(ctx):
                     else:
                         reads = any((t_.get("res") or "").endswith("fs::read") for _b2, t_ in body_.calls())
                         ctx.ob("ROOTS", f"added-set|{last}", (not matchable) or reads, f"{body_.name}: the added set excludes paths that also exist in the old tree ({last} on {'relative' if sa and sb else 'same-root'} paths) without comparing contents, so files changed between the trees would keep their old content", body_.file, body_.line)
+                elif last in ("ends_with", "starts_with", "contains", "eq_ignore_ascii_case", "cmp", "partial_cmp", "lt", "le", "gt", "ge") and len(args) >= 2:
+                    (ta, _sa), (tb, _sb) = tags_of(args[0]), tags_of(args[1])
+                    if ta and tb and ta != tb:
+                        n_cmp += 1
+                        ctx.ob("ROOTS", f"{which}-set|{last}", False, f"{body_.name}: membership across the two trees is decided by {callee.split('::', 2)[-1]}, which is not equality of relative paths (a path of tree {sorted(ta)} is matched against tree {sorted(tb)} by {last})", body_.file, body_.line)
                 # nested closures passed to any/all/find/position over some collection
                 if last in ("any", "all", "find", "position", "filter") and len(args) >= 2 and depth < 3:
                     cl = [t for t in walk(args[1]) if isinstance(t, tuple) and t[0] == "agg" and t[1] == "closure"]
